@@ -26,12 +26,17 @@ RULE = ("correlation rules over all 8 types x 6 operators x counts {0,1,large,ne
         "(1:1, 1:N, prefix, suffix, scoped by include/exclude, 1-3 stages, post-processing item); distinct = distinct "
         "(rule, refs, cfg, pipeline); non-trivial = a correlation query was emitted and compared"
         "; field-mapping stages optionally carry a log source rule condition that holds for every rule"
-        "; a correlation rule over a failing referenced rule (stream shared with C08)")
+        "; a correlation rule over a failing referenced rule (stream shared with C08)"
+        "; spelling stream: one-element `rules` / `group-by` lists written as plain scalars (default temporal count = number of "
+        "referenced rules, not a property of the spelling), alias names spelled like one of their target fields, like a target's "
+        "image under the pipeline, like another field or unlike any field")
 ASSUMPTIONS = [
     "the referenced rules' own conversion is a parameter (Env): obtained by converting each referenced rule alone with the same backend and pipeline (C01/C12 cover it)",
     "the effect of one field-mapping item on a name is computed by the harness from its documented mapping / scope and sent as a finite table (C12/C13 cover it)",
     "timespan grammar covered: ASCII digits followed by one unit letter (Python's int() accepts more: signs, underscores, blanks)",
-    "alias names are disjoint from every field name and mapping image; aliases are keyed by the reference string used in the rules list",
+    "main stream: alias names are disjoint from every field name and mapping image; spelling stream: alias names may coincide with field names, "
+    "alias targets and their images, but no group-by entry that is not an alias name passes through an alias name at any stage "
+    "(hypothesis NoCapture of Props.C10 mapping_consistent); aliases are keyed by the reference string used in the rules list",
     "the harness parser of the delimiter-structured templates (corrbackend.read_query) is trusted",
 ]
 FIELDS = ["fa", "fb", "fc", "user.name", "src ip", "o'q"]
@@ -190,8 +195,8 @@ def gen_corr(rnd, refs_rules, ref_strs, nested=False):
     return rule
 
 
-def gen_case(rnd):
-    n = rnd.choice([1, 1, 2, 2, 3, 4])
+def gen_case(rnd, n=None):
+    n = rnd.choice([1, 1, 2, 2, 3, 4]) if n is None else n
     dets = [gen_det_rule(rnd, i) for i in range(n)]
     docs = list(dets)
     top = [(d, ref_of(rnd, d)) for d in dets]
@@ -212,6 +217,58 @@ def gen_case(rnd):
     rnd.shuffle(docs)
     return {"docs": docs, "cfg": gen_cfg(rnd), "pipe": gen_pipeline(rnd, FIELDS),
             "method": rnd.choice([None, None, None, None, "m1", "m2", "bogus"])}
+
+
+def stage_closure(p, f):
+    """every name `f` passes through while the stages are applied one after the other (intermediate images included)"""
+    seen, cur = [f], [f]
+    for st in p["stages"]:
+        cur = [y for x in cur for y in stage_image(st, x)]
+        seen += [x for x in cur if x not in seen]
+    return seen
+
+
+def spelling_case(rnd):
+    """Spelling stream.  The property speaks of the correlation rule's elements 'as given': (a) a list-valued attribute with
+    one entry may be written as a plain scalar (`rules: name`, `group-by: field`) and is the same rule; (b) an alias is a name
+    chosen by the rule author: it may be spelled like one of its own target fields, like the image of a target under the
+    pipeline, or like any other field of the log source — each (alias, rule) pair still has its normalisation."""
+    c = gen_case(rnd, rnd.choice([1, 1, 1, 2, 2, 3]))
+    corrs = [d for d in c["docs"] if d["kind"] == "corr"]
+    main = main_of(c)
+    # (b) alias names from the fields' name space
+    if main["rules"] and rnd.random() < 0.6:
+        refs = list(main["rules"])
+        aliases, names = [], []
+        for _ in range(rnd.choice([1, 1, 2])):
+            targets = rnd.sample(refs, rnd.randint(1, len(refs)))
+            mapping = [[r, rnd.choice(FIELDS)] for r in targets]
+            pool = [f for _, f in mapping]                                      # like a target as written
+            pool += [x for _, f in mapping for x in map_all(c["pipe"], f)]      # like a target after field mapping
+            pool += [rnd.choice(FIELDS), rnd.choice(["al_user", "al_ip"])]      # like another field / unlike any field
+            an = rnd.choice(pool)
+            if an in names: continue
+            names.append(an)
+            aliases.append({"name": an, "mapping": mapping})
+        main["aliases"] = aliases
+        if rnd.random() < 0.85:
+            # group-by entries that are not alias names must not be renamed onto an alias name by any stage (hypothesis
+            # NoCapture of Props.C10 mapping_consistent: from then on the entry could not be told from the alias)
+            free = [f for f in FIELDS if not set(stage_closure(c["pipe"], f)) & set(names)]
+            gb = rnd.sample(free, min(len(free), rnd.choice([0, 1, 2]))) + (names if rnd.random() < 0.8 else [])
+            rnd.shuffle(gb)
+            main["groupBy"] = gb or None
+        else:
+            main["groupBy"] = None
+        if rnd.random() < 0.8:
+            c["cfg"]["norm"] = c["cfg"]["gb"] = True
+    # (a) scalar spelling of one-element lists, in every correlation rule of the collection
+    for r in corrs:
+        sp = {}
+        if r["rules"] is not None and len(r["rules"]) == 1 and rnd.random() < 0.75: sp["rules"] = "scalar"
+        if r["groupBy"] is not None and len(r["groupBy"]) == 1 and rnd.random() < 0.6: sp["groupBy"] = "scalar"
+        if sp: r["spell"] = sp
+    return c
 
 
 _TREES = {}
@@ -272,6 +329,10 @@ def gen_cases(tier, seed, gen, effort):
         for failkind in ("placeholder", "badvalue", "missingdet", "pipefail"):
             for collect in (True, False):
                 cases.append({"corrfail": failkind, "order": order, "collect": collect})
+    # spelling stream: scalar spelling of one-element `rules` / `group-by`; alias names spelled like field names
+    rnd3 = random.Random(seed * 7919 + 1010)
+    for _ in range((600 if tier != "thorough" else 8000) * effort):
+        cases.append(spelling_case(rnd3))
     return cases, False
 
 
@@ -286,9 +347,11 @@ def doc_of(r):
         d["detection"] = {**copy.deepcopy(r["dets"]), "condition": list(r["conds"]) if len(r["conds"]) > 1 else r["conds"][0]}
         return d
     c = {"type": r["type"], "timespan": r["timespan"]}
-    if r["rules"] is not None: c["rules"] = list(r["rules"])
+    sp = r.get("spell") or {}
+    if r["rules"] is not None: c["rules"] = r["rules"][0] if sp.get("rules") == "scalar" and len(r["rules"]) == 1 else list(r["rules"])
     if r["generate"]: c["generate"] = True
-    if r["groupBy"] is not None: c["group-by"] = list(r["groupBy"])
+    if r["groupBy"] is not None:
+        c["group-by"] = r["groupBy"][0] if sp.get("groupBy") == "scalar" and len(r["groupBy"]) == 1 else list(r["groupBy"])
     if r["aliases"]: c["aliases"] = {a["name"]: {k: v for k, v in a["mapping"]} for a in r["aliases"]}
     cd = r["cond"]
     if cd is not None:
@@ -702,6 +765,10 @@ def judge(case, impl, reply):
     oc = impl["outcome"]
     tags = [f"type:{main['type']}", f"outcome:{oc.split(':')[0] if oc != 'ok' else 'ok'}"]
     key = json.dumps(case, sort_keys=True)
+    for k2 in sorted(main.get("spell") or {}):
+        tags.append(f"spell:{k2}-scalar")
+    if any(a["name"] in [x for _, f in a["mapping"] for x in [f] + map_all(case["pipe"], f)] for a in main["aliases"]):
+        tags.append("alias:named-like-its-target")
     if reply is None:
         return Verdict("unjudged", f"a referenced rule could not be converted on its own: {oc} {impl.get('msg')}", False, None, tags=tuple(tags))
     model, spec = reply["model"], lean_record(reply["spec"])
@@ -756,6 +823,10 @@ def judge(case, impl, reply):
             else:
                 findings.add(None)
         what = "; ".join(t for _, t, _ in stated[:3])
+        if main.get("spell"):
+            what += "; the correlation rule writes " + " and ".join(
+                f"{ {'rules': 'rules', 'groupBy': 'group-by'}[k2] }: {doc_of(main)['correlation'][{'rules': 'rules', 'groupBy': 'group-by'}[k2]]!r} (scalar spelling of a one-element list)"
+                for k2 in sorted(main["spell"]))
         fid = None if None in findings else min(findings)
         return Verdict("violation", what, True, key, finding=fid, tags=tuple(tags))
     if mdiffs or [d for d in diffs if d[2] == "unstated"]:
